@@ -626,7 +626,18 @@ impl Stream {
         let group = self.consumer_groups.get_group(group_name)
             .ok_or_else(|| format!("NOGROUP No such consumer group {} for stream", group_name))?;
         
-        let claimed_ids = group.claim_messages(consumer, min_idle_ms, ids, force);
+        // FORCE creates the pending entry of an ID that is not pending, provided the entry exists in the stream
+        let creatable: Vec<StreamId> = if force {
+            let data = self.data.lock().unwrap();
+            ids.iter()
+                .filter(|id| data.entries.binary_search_by(|e| e.id.cmp(id)).is_ok())
+                .copied()
+                .collect()
+        } else {
+            Vec::new()
+        };
+        
+        let claimed_ids = group.claim_messages(consumer, min_idle_ms, ids, &creatable);
         
         // Get the actual entries for claimed IDs
         let data = self.data.lock().unwrap();
